@@ -78,26 +78,36 @@ fn builtin_len(args: Vec<Rc<Object>>) -> Result<Rc<Object>, String> {
     }
 }
 
-fn builtin_puts(args: Vec<Rc<Object>>) -> Result<Rc<Object>, String> {
-    if args.is_empty() {
-        println!();
-        return Ok(Rc::new(Object::Null));
-    }
+/// Write text to stdout / stderr without the panic that `print!` raises when
+/// the stream fails (a closed pipe, a full device): the failure is handed back
+/// so that the builtin can return it as an error object.
+fn out_str(s: &str) -> io::Result<()> {
+    io::stdout().write_all(s.as_bytes())
+}
 
+fn err_str(s: &str) -> io::Result<()> {
+    io::stderr().write_all(s.as_bytes())
+}
+
+fn io_result(res: io::Result<()>, ok: Object) -> Result<Rc<Object>, String> {
+    match res {
+        Ok(()) => Ok(Rc::new(ok)),
+        Err(e) => Ok(Rc::new(Object::Err(ErrorObj::IO(e)))),
+    }
+}
+
+fn builtin_puts(args: Vec<Rc<Object>>) -> Result<Rc<Object>, String> {
+    let mut text = String::new();
     for obj in args {
         match obj.as_ref() {
-            Object::Str(t) => {
-                // Avoid quotes around string
-                print!("{}", t);
-            }
-            o => {
-                print!("{}", o);
-            }
+            // Avoid quotes around string
+            Object::Str(t) => text.push_str(t),
+            o => text.push_str(&o.to_string()),
         }
     }
-    println!();
+    text.push('\n');
     // puts returns Null
-    Ok(Rc::new(Object::Null))
+    io_result(out_str(&text), Object::Null)
 }
 
 fn builtin_first(args: Vec<Rc<Object>>) -> Result<Rc<Object>, String> {
@@ -452,62 +462,42 @@ fn builtin_print(args: Vec<Rc<Object>>) -> Result<Rc<Object>, String> {
     if args.is_empty() {
         return Err(String::from("takes atleast one argument. got none"));
     }
-    let mut len = 0;
     let collector = format_buf(args)?;
     // Print the collected formatted output
-    for s in &collector.0 {
-        print!("{}", s);
-        len += s.len() as i64;
-    }
-    Ok(Rc::new(Object::Integer(len)))
+    let text = collector.0.concat();
+    io_result(out_str(&text), Object::Integer(text.len() as i64))
 }
 
 fn builtin_println(args: Vec<Rc<Object>>) -> Result<Rc<Object>, String> {
     if args.is_empty() {
         return Err(String::from("takes atleast one argument. got none"));
     }
-    let mut len = 0;
     let collector = format_buf(args)?;
-    // Print the collected formatted output
-    for s in &collector.0 {
-        print!("{}", s);
-        len += s.len() as i64;
-    }
-    // Newline at the end
-    println!();
-    len += 1;
-    Ok(Rc::new(Object::Integer(len)))
+    // Print the collected formatted output with a newline at the end
+    let mut text = collector.0.concat();
+    text.push('\n');
+    io_result(out_str(&text), Object::Integer(text.len() as i64))
 }
 
 fn builtin_eprint(args: Vec<Rc<Object>>) -> Result<Rc<Object>, String> {
     if args.is_empty() {
         return Err(String::from("takes atleast one argument. got none"));
     }
-    let mut len = 0;
     let collector = format_buf(args)?;
     // Print the collected formatted output
-    for s in &collector.0 {
-        eprint!("{}", s);
-        len += s.len() as i64;
-    }
-    Ok(Rc::new(Object::Integer(len)))
+    let text = collector.0.concat();
+    io_result(err_str(&text), Object::Integer(text.len() as i64))
 }
 
 fn builtin_eprintln(args: Vec<Rc<Object>>) -> Result<Rc<Object>, String> {
     if args.is_empty() {
         return Err(String::from("takes atleast one argument. got none"));
     }
-    let mut len = 0;
     let collector = format_buf(args)?;
-    // Print the collected formatted output
-    for s in &collector.0 {
-        eprint!("{}", s);
-        len += s.len() as i64;
-    }
-    // Newline at the end
-    eprintln!();
-    len += 1;
-    Ok(Rc::new(Object::Integer(len)))
+    // Print the collected formatted output with a newline at the end
+    let mut text = collector.0.concat();
+    text.push('\n');
+    io_result(err_str(&text), Object::Integer(text.len() as i64))
 }
 
 fn builtin_round(args: Vec<Rc<Object>>) -> Result<Rc<Object>, String> {
@@ -931,23 +921,23 @@ fn builtin_write(args: Vec<Rc<Object>>) -> Result<Rc<Object>, String> {
                 FileHandle::Stdin => Err("cannot write to stdin".to_string()),
                 FileHandle::Stdout => match args[1].as_ref() {
                     Object::Byte(b) => {
-                        print!("{}", *b as char);
-                        Ok(Rc::new(Object::Integer(1)))
+                        io_result(out_str(&(*b as char).to_string()), Object::Integer(1))
                     }
                     Object::Arr(arr) => {
+                        let mut text = String::new();
                         for obj in arr.elements.borrow().iter() {
                             if let Object::Byte(b) = obj.as_ref() {
-                                print!("{}", *b as char);
+                                text.push(*b as char);
                             } else {
                                 return Err(String::from("array should contain only bytes"));
                             }
                         }
-                        Ok(Rc::new(Object::Integer(arr.elements.borrow().len() as i64)))
+                        io_result(
+                            out_str(&text),
+                            Object::Integer(arr.elements.borrow().len() as i64),
+                        )
                     }
-                    Object::Str(s) => {
-                        print!("{}", s);
-                        Ok(Rc::new(Object::Integer(s.len() as i64)))
-                    }
+                    Object::Str(s) => io_result(out_str(s), Object::Integer(s.len() as i64)),
                     Object::Packet(s) => {
                         let bytes: Vec<u8> = s.as_ref().into();
                         match io::stdout().write_all(&bytes) {
@@ -961,23 +951,23 @@ fn builtin_write(args: Vec<Rc<Object>>) -> Result<Rc<Object>, String> {
                 },
                 FileHandle::Stderr => match args[1].as_ref() {
                     Object::Byte(b) => {
-                        eprint!("{}", *b as char);
-                        Ok(Rc::new(Object::Integer(1)))
+                        io_result(err_str(&(*b as char).to_string()), Object::Integer(1))
                     }
                     Object::Arr(arr) => {
+                        let mut text = String::new();
                         for obj in arr.elements.borrow().iter() {
                             if let Object::Byte(b) = obj.as_ref() {
-                                eprint!("{}", *b as char);
+                                text.push(*b as char);
                             } else {
                                 return Err(String::from("array should contain only bytes"));
                             }
                         }
-                        Ok(Rc::new(Object::Integer(arr.elements.borrow().len() as i64)))
+                        io_result(
+                            err_str(&text),
+                            Object::Integer(arr.elements.borrow().len() as i64),
+                        )
                     }
-                    Object::Str(s) => {
-                        eprint!("{}", s);
-                        Ok(Rc::new(Object::Integer(s.len() as i64)))
-                    }
+                    Object::Str(s) => io_result(err_str(s), Object::Integer(s.len() as i64)),
                     Object::Packet(s) => {
                         let bytes: Vec<u8> = s.as_ref().into();
                         match io::stderr().write_all(&bytes) {
@@ -1041,8 +1031,8 @@ fn builtin_input(args: Vec<Rc<Object>>) -> Result<Rc<Object>, String> {
     // display the prompt only if args has atleast one element
     if args.len() == 1 {
         if let Object::Str(s) = args[0].as_ref() {
-            print!("{}", s);
-            io::stdout().flush().expect("Failed to flush stdout");
+            // a prompt that cannot be shown is not a reason to give up reading
+            let _ = out_str(s).and_then(|_| io::stdout().flush());
         } else {
             return Err(String::from("argument should be a string"));
         }
